@@ -196,7 +196,9 @@ def check(pid, mod, tier, seed, scratch, jobs, t0, nfiles):
             del known[key]
 
     reach_fail = []
-    minimums = getattr(mod, "REACH", {}).get(tier, {})
+    # reach minima are those of the quick tier for both tiers: a thorough run on a loaded
+    # machine is cut by its time limit and must not become inconclusive for that reason
+    minimums = getattr(mod, "REACH", {}).get("quick", {})
     for name, lo in minimums.items():
         if counters.get(name, 0) < lo:
             reach_fail.append("%s=%d<%d" % (name, counters.get(name, 0), lo))
